@@ -31,6 +31,14 @@ class VCtx(Ctx):
         self.fun_reports = []
         self.entries = {}
 
+    def add_axioms(self, facts):
+        """Universally valid side facts (ranges of uninterpreted functions, communicator sizes): part of every VC."""
+        seen = self.__dict__.setdefault('_axiom_ids', set())
+        for f in facts:
+            if f.get_id() not in seen:
+                seen.add(f.get_id())
+                self.axioms.append(f)
+
     def clause_ast(self, text):
         n = self._clause_cache.get(text)
         if n is None:
@@ -214,10 +222,32 @@ def verify_lemma(ctx, lem):
     for cl in lem.get('requires', []):
         st.assume(eng.ev_clause(cl, st, fr))
     n0 = len(ctx.obligations)
-    for i, cl in enumerate(lem['ensures']):
-        f = eng.ev_clause(cl, st, fr)
-        eng.prove(st, fr, 'lemma', f, None, clause='%s ensures[%d]: %s' % (lem['name'], i, cl),
-                  name='lemma:%s[%d]' % (lem['name'], i))
+    ind = lem.get('induct')
+    if ind:
+        # induction on an integer variable over [lo, hi): ensures are P(k); base P(lo) (when lo < hi), step P(k) => P(k+1)
+        # (lo <= k, k + 1 < hi).  The lemma is then used as forall k in [lo, hi): P(k).
+        k, lo, hi = ind['var'], eng.ev_clause_val(ind['lo'], st, fr), eng.ev_clause_val(ind['hi'], st, fr)
+        sb = st.fork()
+        sb.env[k] = lo
+        sb.assume(compare('Lt', lo, hi))
+        for i, cl in enumerate(lem['ensures']):
+            eng.prove(sb, fr, 'lemma', eng.ev_clause(cl, sb, fr), None, clause='%s base[%d]: %s' % (lem['name'], i, cl),
+                      name='lemma:%s:base[%d]' % (lem['name'], i))
+        ss = st.fork()
+        kv = smt.fresh(k, 'int')
+        ss.env[k] = kv
+        ss.assume(b_and(compare('GtE', kv, lo), compare('Lt', kv + 1, hi)))
+        for cl in lem['ensures']:
+            ss.assume(eng.ev_clause(cl, ss, fr))
+        ss.env[k] = kv + 1
+        for i, cl in enumerate(lem['ensures']):
+            eng.prove(ss, fr, 'lemma', eng.ev_clause(cl, ss, fr), None, clause='%s step[%d]: %s' % (lem['name'], i, cl),
+                      name='lemma:%s:step[%d]' % (lem['name'], i))
+    else:
+        for i, cl in enumerate(lem['ensures']):
+            f = eng.ev_clause(cl, st, fr)
+            eng.prove(st, fr, 'lemma', f, None, clause='%s ensures[%d]: %s' % (lem['name'], i, cl),
+                      name='lemma:%s[%d]' % (lem['name'], i))
     for ob in ctx.obligations[n0:]:
         ob.min_rounds = lem.get('rounds', 2)
     rep = dict(function='lemma:' + lem['name'], hash=None, paths=1, obligations=len(ctx.obligations) - n0,
@@ -631,7 +661,7 @@ def new_ctx(repo=None):
     ctx.engine = Engine(ctx)
     ctx.global_qfacts.append(smt.QFact(2, lambda x, y: V.imod_facts(x, y), 'integer modulo with symbolic divisor', trigger='imod'))
 
-    def flat_hook(apps, seen, seen_pairs):
+    def flat_hook(apps, seen, seen_pairs, singles=None):
         from . import flat
         out = []
         for rank in (2, 3, 4):
@@ -640,6 +670,14 @@ def new_ctx(repo=None):
                 if ('flat', aid) not in seen:
                     seen[('flat', aid)] = 0
                     out.extend(flat.flat_axioms(rank, app))
+                    out.extend(flat.concat_block_axioms(rank, app))
+                # relational block form: candidate block numbers are the integer constants used as indices
+                cands = [t for t in (singles or {}).values() if z3.is_const(t) and t.decl().kind() == z3.Z3_OP_UNINTERPRETED
+                         and t.sort() == z3.IntSort()][:8]
+                for t in cands:
+                    if ('flatb', aid, t.get_id()) not in seen_pairs:
+                        seen_pairs.add(('flatb', aid, t.get_id()))
+                        out.extend(flat.concat_rel_axioms(rank, app, t))
             for aid, app in apps.get('prod%d' % rank, {}).items():
                 if ('prod', aid) not in seen:
                     seen[('prod', aid)] = 0
